@@ -784,6 +784,21 @@ def run_script(run, script, settle=default_decide, hold=()):
             if sid is None:
                 continue
             run.apply(("peerclose", sid))
+        elif k == "srvframe":
+            # an HTTP/2 server says something on an IDLE connection that is no reason to drop it (PING, or a
+            # SETTINGS frame): the socket becomes readable, the connection stays healthy
+            o = make_origin(ind_origin(step[1]))
+            for rec in run.net.streams:
+                if rec.open and not rec.eof and rec.owner is not None and rec.owner.is_idle() and rec.owner.can_handle_request(o) and hasattr(rec.peer, "conn"):
+                    if len(step) > 2 and step[2] == "settings":
+                        import h2.settings
+
+                        rec.peer.conn.update_settings({h2.settings.SettingCodes.MAX_HEADER_LIST_SIZE: 65000})
+                    else:
+                        rec.peer.conn.ping(b"verifpng")
+                    rec.push(rec.peer.conn.data_to_send())
+                    run.event("SrvFrame", sid=rec.sid)
+                    break
         elif k == "cancel":
             run.apply(("cancel_if_live", step[1], step[2]))
         else:
